@@ -506,6 +506,26 @@ impl ReferenceProcessor<Arc<AtomicU32>, InsertReferencesResult, InsertReferences
             }
         }
 
+        /* async_std::fs::File buffers writes: flush before the rename so that the complete new
+         * content (or the error writing it) is known before the original file is replaced.
+         */
+        match scratch_file.file().flush().await
+        {
+            Ok(_) => (),
+            Err(e) =>
+            {
+                task::spawn(async move {
+                    error!("[ref: 13] Failed to write to temporary file: {}", e);
+                })
+                .await;
+
+                return Some(InsertReferencesResult {
+                    failure: true,
+                    num_inserted_references: 0,
+                });
+            },
+        }
+
         match async_std::fs::rename(scratch_file.path(), path).await
         {
             Ok(_) =>
